@@ -4,7 +4,7 @@
 From Coq Require Import NArith.
 From AtreeGen Require Import Consts.
 
-Theorem C12_default_limit_is_255 : c_defaultMaxCollisionLimitPerDigest = 255%N.
+Theorem C12_default_limit_is_255 : c_initialMaxCollisionLimitPerDigest = 255%N.
 Proof. exact eq_refl. Qed.
 
 Print Assumptions C12_default_limit_is_255.
